@@ -113,8 +113,8 @@ func checkC13(w *World, c *Check) {
 		add("appended-is-contained", nil, has1)
 		add("append-present-changes-nothing", []*Term{present0}, Eq(len1, len0))
 		add("append-absent-grows-by-one", []*Term{Not(present0)}, Eq(len1, Add(len0, IntLit(1))))
-		add("removed-is-not-contained", nil, Not(has2))
-		c.Obls[len(c.Obls)-1].Timeout = 90
+		c.Add(&Obligation{Name: "C13/laws/removed-is-not-contained", Group: "C13/laws/hard", Common: common, Goal: Not(has2), Pos: "Append;Contains;Remove;Contains on the real code",
+			Funcs: []string{"(*ItemCollection).Remove", "(ItemCollection).Contains"}, Timeout: 300, ThoroughOnly: true, Replay: c13Replay})
 		add("remove-shrinks-by-one", nil, Eq(len2, Sub(len1, IntLit(1))))
 	})
 	for _, o := range c.Obls {
